@@ -87,7 +87,7 @@ func cmdCheck(args []string) int {
 		seed, _ = strconv.Atoi(s)
 	}
 	t0 := time.Now()
-	timeout := 20
+	timeout := 45
 	if *tier == "thorough" {
 		timeout = 120
 	}
@@ -216,7 +216,7 @@ func cmdCheck(args []string) int {
 				if _, isKF := kfByObl[o.ID]; isKF {
 					continue
 				}
-				if o.Status == "unsat" && o.Secs <= 8 {
+				if o.Status == "unsat" && o.Secs <= 12 {
 					nc.Claimed = append(nc.Claimed, o.ID)
 				} else {
 					why := claims.Unclaimed[o.ID]
